@@ -568,7 +568,11 @@ class Tracer:
                     elif fname.isdigit():
                         sel = int(fname)
                     if sel is not None and sel < len(ops):
-                        return self.operand(ops[sel], r[1:])
+                        o = ops[sel]
+                        if o["k"] in ("copy", "move"):
+                            # keep the visited set: `x.f = Agg { f0: x.f.f0, .. }` refers to itself
+                            return self._trace(o["pl"]["l"], tuple(norm_projs(pl_projs(o["pl"]) + list(r[1:]))), visited, depth + 1)
+                        return self.operand(o, r[1:])
             return {Leaf(("agg", (rv.get("ak"), rv.get("adt"), rv.get("variant"), bb, idx), tuple(rest)))}
         if k == "call":
             t = rv["t"]
